@@ -59,6 +59,7 @@ def mk_candles(stream, xname="X"):
 
     out = []
     for r in stream:
+        r = cm.np_row(r)
         stamp = wire.secs_to_ts(r[0])
         if stamp is not None and cm.TZOFF is not None:   # aware stamps with a fixed offset (cm.aware)
             from datetime import timedelta, timezone
